@@ -83,3 +83,55 @@ harness! {
         core::mem::forget(b);
     }
 }
+
+/// Same claim on a *cluster*: a frame point fixes the bounding range, two further vertices sit
+/// so close together (multiples of 2^-40 in a range of 4) that they quantise to the same
+/// Hilbert / Morton cell; their relative order must still not depend on the input order.
+macro_rules! order_independent_cluster {
+    ($name:ident, $strategy:expr, $unwind:literal) => {
+        harness! {
+            // bound: n=3, D=2: frame vertex (-2,2) + two cluster vertices with coordinates in {0,1,2,3}*2^-40, every permutation of the input list
+            #[kani::unwind($unwind)]
+            fn $name() {
+                let unit = f64::from_bits((1023_u64 - 40) << 52);
+                let c: [[u8; 2]; 2] = kani::any();
+                kani::assume(c[0][0] < 4 && c[0][1] < 4 && c[1][0] < 4 && c[1][1] < 4);
+                let mk = |k: [u8; 2], n: u64| Vertex::<f64, (), 2>::new_with_uuid(
+                    Point::new([f64::from(k[0]) * unit, f64::from(k[1]) * unit]), uuid_n(n), None);
+                let v = [vtx(-2, 2, 1), mk(c[0], 2), mk(c[1], 3)];
+                let p: u8 = kani::any();
+                kani::assume(p < 5);
+                let perm: [usize; 3] = match p {
+                    0 => [0, 2, 1],
+                    1 => [1, 0, 2],
+                    2 => [1, 2, 0],
+                    3 => [2, 0, 1],
+                    _ => [2, 1, 0],
+                };
+                let w = [v[perm[0]], v[perm[1]], v[perm[2]]];
+                let a = hooks::order_vertices_by_strategy(v.to_vec(), $strategy);
+                let b = hooks::order_vertices_by_strategy(w.to_vec(), $strategy);
+                assert!(a.len() == 3 && b.len() == 3);
+                let distinct = c[0] != c[1];
+                let mut i = 0;
+                while i < 3 {
+                    assert!(a[i].point().coords()[0] == b[i].point().coords()[0]
+                        && a[i].point().coords()[1] == b[i].point().coords()[1],
+                        "insertion order (as coordinates) is independent of the input order");
+                    if distinct {
+                        assert!(a[i].uuid().as_u128() == b[i].uuid().as_u128(),
+                            "insertion order (as vertices) is independent of the input order");
+                    }
+                    i += 1;
+                }
+                kani::cover!(distinct && p == 0, "distinct cluster points, swapped input reached");
+                core::mem::forget(a);
+                core::mem::forget(b);
+            }
+        }
+    };
+}
+
+order_independent_cluster!(c14_order_independent_morton_cluster_n3, InsertionOrderStrategy::Morton, 35);
+order_independent_cluster!(c14_order_independent_hilbert_cluster_n3, InsertionOrderStrategy::Hilbert, 35);
+order_independent_cluster!(c14_order_independent_lex_cluster_n3, InsertionOrderStrategy::Lexicographic, 6);
